@@ -644,7 +644,7 @@ class ParameterSet(NamedItem):
 
         excelfile = spreadsheet.pandas()
 
-        df = pd.read_excel(excelfile, "Y-factors" if "Y-factors" in excelfile.sheet_names else 0)
+        df = pd.read_excel(excelfile, "Y-factors" if "Y-factors" in excelfile.sheet_names else 0, keep_default_na=False, na_values=[""], dtype={"par": str, "pop": str})  # Only blank cells are missing values, and names stay text - populations can have names like "NA" or "007"
         df.set_index(["par", "pop"], inplace=True)
 
         if df.index.duplicated().any():
